@@ -63,6 +63,7 @@ type Fault struct {
 	Call  int   // index of the outermost API call in the history
 	At    int64 // k-th probe invocation within that call (0-based), or tick for FTickIntr
 	Limit int   // FDepth
+	Split int   // FAsyncIntr: the interrupting goroutine is descheduled inside Interrupt() for this many VM instructions
 }
 
 func (f Fault) String() string {
@@ -70,6 +71,9 @@ func (f Fault) String() string {
 	case FDepth:
 		return fmt.Sprintf("call#%d depth-limit=%d", f.Call, f.Limit)
 	case FTickIntr, FAsyncIntr:
+		if f.Split > 0 {
+			return fmt.Sprintf("call#%d %s@tick%d(suspended for %d instructions before its lock acquisition)", f.Call, faultNames[f.Kind], f.At, f.Split)
+		}
 		return fmt.Sprintf("call#%d %s@tick%d(x%d)", f.Call, faultNames[f.Kind], f.At, 1+f.Limit)
 	}
 	return fmt.Sprintf("call#%d %s@probe%d", f.Call, faultNames[f.Kind], f.At)
@@ -107,6 +111,8 @@ type Host struct {
 
 	wd        [2]*watchdog // simulated interrupting goroutines (only when the engine asks for them)
 	wdPayload [2]*intrPayload
+	resumeAt  int64 // tick at which a watchdog suspended inside Interrupt() is resumed (0: none)
+	splits    int   // Interrupt() calls that were suspended at their lock acquisition
 
 	nestedProblem string
 	logSwallow    int // nested InterruptedErrors dropped by a sloppy host native (mode 3)
@@ -141,17 +147,45 @@ func (h *Host) tick() {
 	if f := h.fault; f != nil && f.Kind == FAsyncIntr && !h.fired && h.ticks-1 == f.At {
 		h.fire()
 		h.intrVal = h.wdPayload[0]
+		if f.Split > 0 && syncPointsBuilt {
+			// the interrupting goroutine is descheduled INSIDE Interrupt(), right before it takes the lock; the VM runs
+			// on for f.Split instructions, then Interrupt() completes
+			h.wd[0].arm()
+		}
 		h.wd[0].release()
-		if f.Limit > 0 {
+		if h.wd[0].isParked() {
+			h.resumeAt = h.ticks + int64(f.Split)
+			h.splits++
+		} else if f.Limit > 0 {
 			h.intrVal = h.wdPayload[1]
 			h.wd[1].release()
 		}
+	}
+	if h.resumeAt > 0 && h.ticks >= h.resumeAt {
+		h.resumeAt = 0
+		h.wd[0].resume()
 	}
 	if h.ticks > h.maxTicks {
 		if h.ticks > h.maxTicks+2000 {
 			core.AbortRun() // the panic below keeps being swallowed
 		}
 		panic(&abortRun{why: "tick budget exceeded"})
+	}
+}
+
+// hostSyncHook: a lock acquisition in goja code (instrumented build). Only the watchdog goroutines are of interest.
+//
+//go:norace
+func hostSyncHook(kind int) {
+	h := curHost
+	if kind != 0 || h == nil {
+		return
+	}
+	for _, w := range h.wd {
+		if w != nil && w.armed && w.gid == curGoroutineID() {
+			w.atLockAcquisition()
+			return
+		}
 	}
 }
 
